@@ -63,3 +63,14 @@ func init() {
 		os.Exit(0)
 	}
 }
+
+func init() {
+	if len(os.Args) > 1 && os.Args[1] == "dbgwrapnil" {
+		p, err := core.Load("")
+		if err != nil {
+			panic(err)
+		}
+		props.DebugWrapNil(p)
+		os.Exit(0)
+	}
+}
